@@ -60,9 +60,73 @@ func backgroundAxioms(used map[string]bool) []*Term {
 }
 
 // script builds the SMT-LIB text for an obligation.
+var hasQuantMemo = map[*Term]bool{}
+
+func hasQuant(t *Term) bool {
+	if v, ok := hasQuantMemo[t]; ok {
+		return v
+	}
+	r := t.Op == "forall" || t.Op == "exists"
+	if !r {
+		for _, a := range t.Args {
+			if hasQuant(a) {
+				r = true
+				break
+			}
+		}
+	}
+	hasQuantMemo[t] = r
+	return r
+}
+
+// groundByteFacts: range facts for the ground byte-store reads occurring in the assertions.
+func groundByteFacts(asserts []*Term) []*Term {
+	seen := map[*Term]bool{}
+	var out []*Term
+	var rec func(t *Term, bound bool)
+	rec = func(t *Term, bound bool) {
+		if seen[t] {
+			return
+		}
+		seen[t] = true
+		if t.Op == "forall" || t.Op == "exists" {
+			return
+		}
+		if t.Op == "select" && t.S == SInt {
+			a := t.Args[0]
+			isByte := false
+			if a.Op == "var" && isByteStoreSym(a.Name) {
+				isByte = true
+			} else if a.Op == "select" && a.Args[0].Op == "var" && isByteStoreSym(a.Args[0].Name) {
+				isByte = true
+			}
+			if isByte {
+				out = append(out, And(Le(Num(0), t), Le(t, Num(255))))
+			}
+		}
+		for _, x := range t.Args {
+			rec(x, bound)
+		}
+	}
+	for _, a := range asserts {
+		rec(a, false)
+	}
+	return out
+}
+
 func (o *Obligation) script(eng *Engine, withModel bool) string {
 	var asserts []*Term
-	asserts = append(asserts, o.ctx.facts[:o.NFacts]...)
+	if o.relaxed {
+		// counterexample search: quantified assumptions are dropped (weaker assumptions; any
+		// model is only a candidate that the replay against the real code has to confirm)
+		for _, f := range o.ctx.facts[:o.NFacts] {
+			if !hasQuant(f) {
+				asserts = append(asserts, f)
+			}
+		}
+	} else {
+		asserts = append(asserts, o.ctx.facts[:o.NFacts]...)
+	}
 	asserts = append(asserts, o.Extra...)
 	var final *Term
 	if o.ExpectSat {
@@ -135,6 +199,16 @@ func (o *Obligation) script(eng *Engine, withModel bool) string {
 	bg := backgroundAxioms(used)
 	collectSyms(bg, used)
 	sf := strFacts(used)
+	if o.relaxed {
+		var keep []*Term
+		for _, a := range append(append(asserts, bg...), sf...) {
+			if !hasQuant(a) || a == final {
+				keep = append(keep, a)
+			}
+		}
+		asserts = append(keep, groundByteFacts(keep)...)
+		bg, sf = nil, nil
+	}
 	collectSyms(sf, used)
 	var sb strings.Builder
 	if withModel {
@@ -289,6 +363,14 @@ func getModel(eng *Engine, o *Obligation, outDir string, timeout int) string {
 	os.WriteFile(file, []byte(o.script(eng, true)), 0o644)
 	_, out, _ := runSolver(solvers[0], file, timeout)
 	return out
+}
+
+// candidateModel looks for a counterexample candidate with the quantified assumptions dropped.
+func candidateModel(eng *Engine, o *Obligation, outDir string, timeout int) (string, bool) {
+	file := filepath.Join(outDir, "candidate_query.smt2")
+	os.WriteFile(file, []byte(o.script(eng, true)), 0o644)
+	status, out, _ := runSolver(solvers[0], file, timeout)
+	return out, status == "sat"
 }
 
 func (o *Obligation) ok() bool {
